@@ -527,8 +527,14 @@ class C13(Prop):
     id = "C13"
     theorems = ["inv_init", "inv_step_partial", "inv_step_of_not_setVar", "inv_run", "inv_reachable",
                 "inv_reachable_renameFree", "reject_restores", "rename_visible", "relabel_visible",
-                "inv_step_counterexample"]
-    rule = ("histories of 1-12 Dataset mutations from an empty dataset or (30%) from Dataset(<dict / kwargs / pairs of 1-4 arrays "
+                "inv_step_counterexample",
+                "runAll_eq_run", "runAll_steps_ok", "ctorOps_renameFree", "names_run", "construct_inv", "inv_from_construct",
+                "inv_from_construct_renameFree"]
+    rule = ("STRATUM ctor: Dataset(<arrays with differing labels>) is an operation of the model (DS.construct, "
+            "Lib/DatasetCtor.lean): the driver (op ds_ctor_history) receives the arrays with their ORIGINAL labels, aligns them "
+            "itself (Lib.align, outer join), inserts the aligned arrays one by one and continues with the history; keys, dims, "
+            "union labels in order, per-variable dims and the identity matrix after the constructor and after every later step "
+            "are compared with the implementation, and DS.construct's state with the stepwise run. ""histories of 1-12 Dataset mutations from an empty dataset or (30%) from Dataset(<dict / kwargs / pairs of 1-4 arrays "
             "whose labels differ: subsets of a common label set, increasing / decreasing / shuffled>): ds[k] = array (new / replacing, "
             "fewer / more / other dimensions, 20% with labels mismatching an existing axis on some dimension; 14% an ndarray / "
             "nested list / scalar instead of a DimArray), del ds[k], axis renames through the dataset, through a variable, "
@@ -677,14 +683,12 @@ class C13(Prop):
         st = c.get("start")
         if st:
             keys, order, exp, vs = ctor_expect(st)
-            if all(e["known"] for e in exp.values()):
-                # the constructor = inserting the aligned arrays one by one
-                for v in vs:
-                    ops.append({"op": "set", "key": v["key"],
-                                "axes": [{"name": a["name"], "kind": a["kind"], "labels": exp[a["name"]]["labels"]} for a in v["axes"]]})
-                nstart = len(ops)
-            else:
-                on = False
+            # the constructor is an operation of the model (DS.construct): the MODEL aligns the arrays with their differing
+            # labels (outer join, Lib.align) and inserts the aligned arrays one by one; the harness no longer predicts the
+            # union axes for it (request(): op "ds_ctor_history")
+            for v in vs:
+                ops.append({"op": "ctor_set", "key": v["key"], "axes": v["axes"], "vkind": v.get("vkind", "f")})
+            nstart = len(ops)
         for o in c["ops"]:
             if not on:
                 groups.append(None)
@@ -731,6 +735,10 @@ class C13(Prop):
         ops, nstart, groups = self.lean_plan(c)
         if not ops:
             return dict(DUMMY)
+        if nstart:
+            return {"op": "ds_ctor_history", "keys": [o["key"] for o in ops[:nstart]],
+                    "arrays": [core.lean_array({"axes": o["axes"], "vkind": o["vkind"]}, None) for o in ops[:nstart]],
+                    "ops": ops[nstart:]}
         return {"op": "ds_history", "ops": ops}
 
     # ------------------------------------------------------------ oracle
@@ -901,6 +909,9 @@ class C13(Prop):
                 l = lib[nstart - 1]
                 errs = [x["err"] for x in lib[:nstart] if x["err"] is not None]
                 m = model_diff(o, l, errs[0] if errs else None)
+                cs = ans.get("ctor_state")
+                if not errs and (cs is None or {k: v for k, v in cs.items() if k != "err"} != {k: v for k, v in l.items() if k != "err"}):
+                    m.append("M.ctor_state")        # DS.construct (the definition the theorems are about) = the stepwise run
             if p or m:
                 return {"kind": "P" if p else "M", "differs": sorted(set(p + m)), "first": report(-1, {"op": "Dataset(...)"}, o, l, p, m),
                         "msg": io.get("start_msg")}
